@@ -100,6 +100,10 @@ func genCfg(r *rng) CfgPlan {
 		VerifyOutgoing:   true,
 	}
 	c.ProbeTimeoutMs = c.ProbeIntervalMs / r.pick(2, 3, 5)
+	if r.chance(0.12) {
+		// unusual but legal: probe timeout at or above the probe interval
+		c.ProbeTimeoutMs = c.ProbeIntervalMs * r.pick(2, 2, 3, 6) / 2
+	}
 	if r.chance(0.4) {
 		c.Encrypt = r.pick(16, 24, 32)
 	}
